@@ -260,9 +260,10 @@ def _gen_session(rng, prop):
     codepage = '437'
     q = rng.random()
     if prop != 'C30':
-        if q < 0.08:
+        share = 0.14 if prop == 'C35' else 0.08
+        if q < share:
             codepage = rng.choice(DBCS_CODEPAGES)
-        elif q < 0.16:
+        elif q < share + 0.08:
             codepage = rng.choice(SBCS_CODEPAGES)
     return {
         'video': adapter, 'monitor': monitor, 'text_width': rng.choice([80, 80, 80, 40]),
@@ -392,16 +393,17 @@ def _edge_print_ops(rng, hint, dbcs):
     k = max(1, w - col + 1 + rng.choice([0, 0, 0, -1, 1]))
     if dbcs and rng.random() < 0.75:
         # few characters, so that the same ones come back alone, as lead and as trail of a pair
-        abc = [rng.choice(PLAIN[31:]) for _ in range(3)]
+        if getattr(hint, 'abc', None) is None:
+            hint.abc = [rng.choice(PLAIN[31:]) for _ in range(3)]
+        abc = hint.abc
+        def pair():
+            # lead byte with an ASCII or a high trail byte: valid and undefined pairs alike
+            return chr(rng.randint(0x81, 0xfe)) + (rng.choice(abc) if rng.random() < 0.6 else chr(rng.randint(0x80, 0xfe)))
         parts = []
         while len(''.join(parts)) < k:
-            if rng.random() < 0.5:
-                parts.append(rng.choice(abc))
-            else:
-                parts.append(chr(rng.randint(0x81, 0xfe)) + rng.choice(abc))
+            parts.append(rng.choice(abc) if rng.random() < 0.7 else pair())
         s = ''.join(parts)[:k]
-        pre = ''.join(rng.choice(abc) if rng.random() < 0.5 else chr(rng.randint(0x81, 0xfe)) + rng.choice(abc)
-                      for _ in range(rng.randint(0, 4)))
+        pre = ''.join(rng.choice(abc) + pair() if rng.random() < 0.7 else pair() for _ in range(rng.randint(0, 3)))
         ops = []
         if pre:
             ops.append({'op': 'print', 's': pre, 'end': ';'})
@@ -571,10 +573,13 @@ def _typed_op(rng, hint):
     parts = ["'"] if rng.random() < 0.7 else []
     for _ in range(rng.randint(1, 7)):
         z = rng.random()
-        if z < 0.08:
-            # something that reads as a number literal, blanks and all
+        if z < 0.10:
+            # something that reads as a number literal (octal, hex, decimal), blanks and all
+            digits = rng.choice(['01234567', '01234567', '0123456789', '0123456789ABCDEF'])
             parts.append(rng.choice(['&', '&O', '&o', '&H', '&h', '', '.', '1E', '1D']) +
-                         ''.join(rng.choice('0123456789  7AFx.+-') for _ in range(rng.randint(1, 6))))
+                         ''.join(rng.choice(digits) for _ in range(rng.randint(0, 3))) +
+                         rng.choice(['', ' ', ' ', '  ', '.', '+', '-']) +
+                         ''.join(rng.choice(digits) for _ in range(rng.randint(0, 3))))
         elif z < 0.55:
             parts.append(_plain(rng, rng.randint(1, 12)))
         else:
@@ -766,7 +771,7 @@ def gen(rng, tier, prop):
                 op = _print_op(rng, hint, dbcs=dbcs)
                 if rng.random() < 0.25:
                     op = {'op': 'scrollburst', 'n': rng.randint(2, 30), 's': _plain(rng, rng.randint(0, 12))}
-                elif rng.random() < (0.4 if dbcs else 0.15):
+                elif rng.random() < (0.5 if dbcs else 0.15):
                     ops.extend(_edge_print_ops(rng, hint, dbcs))
                     continue
                 ops.append(op)
@@ -812,6 +817,11 @@ def gen(rng, tier, prop):
                 ops.append({'op': 'restart'})
             else:
                 ops.append({'op': 'drain'})
+        if dbcs:
+            # double-byte codepages: more output that ends at the right edge, with few characters
+            for _ in range(rng.randint(1, 3)):
+                at = rng.randint(len(ops) // 2, len(ops))
+                ops[at:at] = _edge_print_ops(rng, hint, dbcs)
         if faulty and rng.random() < 0.5:
             ops.insert(rng.randint(len(ops) // 2, len(ops)), {'op': 'restart'})
     elif prop == 'C36':
